@@ -5,6 +5,7 @@ import (
 	"fmt"
 	"path/filepath"
 	"strings"
+	"sync"
 )
 
 // Canary is an edit of the frozen fixture tree (testdata/base, a snapshot of
@@ -77,10 +78,30 @@ func runCanaries(u *Universe, pc *PropertyCheck, c *Check, verif string) {
 		res.Reported = fmt.Sprintf("%s %s: %s", bf[0].Rule, bf[0].Construct, bf[0].Detail)
 	}
 	c.Canaries = append(c.Canaries, res)
-	for _, cn := range pc.Canaries {
-		c.Canaries = append(c.Canaries, runOne(u, pc, cn, base, "canary:"))
+	// the variants are independent programs (own type check, own SSA, own caches): a few at a time
+	results := make([]CanaryResult, len(pc.Canaries))
+	sem := make(chan struct{}, canaryWorkers)
+	var wg sync.WaitGroup
+	for i, cn := range pc.Canaries {
+		wg.Add(1)
+		sem <- struct{}{}
+		go func(i int, cn Canary) {
+			defer wg.Done()
+			defer func() { <-sem }()
+			defer func() {
+				if r := recover(); r != nil {
+					results[i] = CanaryResult{Name: cn.Name, Rule: cn.Rule, Expect: "fires", Reported: fmt.Sprint("panic: ", r)}
+				}
+			}()
+			results[i] = runOne(u, pc, cn, base, "canary:")
+		}(i, cn)
 	}
+	wg.Wait()
+	c.Canaries = append(c.Canaries, results...)
 }
+
+// canaryWorkers: variants analysed concurrently (each holds its own SSA program of mq and its imports).
+const canaryWorkers = 6
 
 func runOne(u *Universe, pc *PropertyCheck, cn Canary, base Source, prefix string) CanaryResult {
 	res := CanaryResult{Name: cn.Name, Rule: cn.Rule, Expect: "fires"}
